@@ -268,14 +268,14 @@ func main() {
 	run := vh.NewRun("C12", "fault_enumeration")
 	wl.Setup(filepath.Join(run.Scratch, "log"), "error")
 	root := run.Rng()
-	nh := run.N(12, 200)
+	nh := run.N(8, 200)
 	vh.Parallel(nh, 16, func(hi int) {
 		if run.Only >= 0 && run.Only/1000 != hi && run.Only < 1000000 {
 			return
 		}
 		faultHistory(run, root.Derive("hist", hi), hi)
 	})
-	nk := run.N(30, 800)
+	nk := run.N(24, 800)
 	vh.Parallel(nk, 16, func(ki int) {
 		ci := 1000000 + ki
 		if !run.Want(ci) {
@@ -410,6 +410,9 @@ func faultHistory(run *vh.Run, rng *vh.Rng, hi int) {
 		for k := 1; k <= cnt.Writes; k++ {
 			plans = append(plans, wl.FaultPlan{Kind: "write", At: k})
 		}
+		for k := 1; k <= cnt.Writes; k++ {
+			plans = append(plans, wl.FaultPlan{Kind: "crash-write", At: k})
+		}
 		for c := 1; c <= cnt.Commits; c++ {
 			for _, kd := range []string{"commit", "crash-before", "crash-after"} {
 				plans = append(plans, wl.FaultPlan{Kind: kd, At: c})
@@ -432,7 +435,7 @@ func faultHistory(run *vh.Run, rng *vh.Rng, hi int) {
 			run.Count("fault:"+plan.Kind, 1)
 			attrs := map[string]string{"op": op.Kind, "fault": plan.Kind}
 			what := ""
-			if plan.Kind == "write" && plan.At-1 < len(cnt.Log) {
+			if (plan.Kind == "write" || plan.Kind == "crash-write") && plan.At-1 < len(cnt.Log) {
 				// name the write that failed (bucket call and key) so that a finding can be keyed on the call site
 				ws := []string{}
 				for _, l := range cnt.Log {
